@@ -41,6 +41,8 @@ impl Sandbox {
 
 impl Drop for Sandbox {
     fn drop(&mut self) {
+        // a scenario may have changed the working directory (relative served directories)
+        let _ = std::env::set_current_dir(process_base());
         let _ = std::fs::remove_dir_all(&self.root);
     }
 }
